@@ -1,7 +1,7 @@
 (* C01 (whole build): the name-reference pass does not depend on the order in which Go's map iteration
    visits the referrers.  [visit_order] (Res/Pipeline.v) is the pass with the order as a parameter;
    [nameref_transform] (Res/NameRef.v, the function the correspondence evaluates) is the list-order instance. *)
-From KV Require Import Res.Pipeline Res.NameRefProofs Res.C03Facts.
+From KV Require Import Res.Pipeline Res.NameRefProofs Res.C03Facts Yaml.FieldSpecSpec.
 From Coq Require Import Sorting.Permutation.
 Local Open Scope string_scope.
 
@@ -255,7 +255,7 @@ Theorem nameref_order_independent nonstr rules order m out :
   nameref_transform pipe_cs nonstr rules m = Ok out.
 Proof.
   intros HR HP H. unfold nameref_in_order in H. unfold nameref_transform.
-  destruct (mapM (org_id pipe_cs) m) as [orgs| | |] eqn:EO; cbn [bind] in *; try discriminate.
+  destruct (mapM (org_id pipe_cs) m) as [orgs| | |] eqn:EO; cbn [bind] in H |- *; try discriminate H.
   assert (Hok : forall b f, In b rules -> In f (nb_referrers b) -> rule_ok f)
     by (intros b f; apply gen_rule_ok; exact HR).
   apply (visit_order_perm nonstr rules Hok orgs _ _ HP) in H.
@@ -269,9 +269,38 @@ Theorem nameref_order_independent_conv nonstr rules order m out :
   nameref_in_order nonstr rules order m = Ok out.
 Proof.
   intros HR HP H. unfold nameref_in_order. unfold nameref_transform in H.
-  destruct (mapM (org_id pipe_cs) m) as [orgs| | |] eqn:EO; cbn [bind] in *; try discriminate.
+  destruct (mapM (org_id pipe_cs) m) as [orgs| | |] eqn:EO; cbn [bind] in H |- *; try discriminate H.
   assert (Hok : forall b f, In b rules -> In f (nb_referrers b) -> rule_ok f)
     by (intros b f; apply gen_rule_ok; exact HR).
   apply (visit_order_perm nonstr rules Hok orgs _ _ (Permutation_sym HP)).
   apply (transform_loop_is_visit_order nonstr rules orgs m [] out); [cbn; apply (mapM_length _ _ _ EO)|exact H].
 Qed.
+
+(* non-vacuity: two referrers of a renamed ConfigMap, visited in the reverse order - same result, and the
+   references did follow the rename *)
+Definition order_example_map : res (list resource) :=
+  accumulate (fun _ => false)
+    (PDir "d" (mkPDirs "" "p-" "" [] [] [] [] [])
+       [PFile [Map [("apiVersion", Scalar TStr SPlain "v1"); ("kind", Scalar TStr SPlain "ConfigMap");
+                    ("metadata", Map [("name", Scalar TStr SPlain "cfg")])];
+               Map [("apiVersion", Scalar TStr SPlain "v1"); ("kind", Scalar TStr SPlain "Pod");
+                    ("metadata", Map [("name", Scalar TStr SPlain "a")]);
+                    ("spec", Map [("volumes", Seq [Map [("configMap", Map [("name", Scalar TStr SPlain "cfg")])]])])];
+               Map [("apiVersion", Scalar TStr SPlain "v1"); ("kind", Scalar TStr SPlain "Pod");
+                    ("metadata", Map [("name", Scalar TStr SPlain "b")]);
+                    ("spec", Map [("volumes", Seq [Map [("configMap", Map [("name", Scalar TStr SPlain "cfg")])]])])]]]).
+
+Definition order_example_m : list resource :=
+  Eval vm_compute in match order_example_map with Ok m => m | _ => [] end.
+Definition order_example_rules : list nbr :=
+  Eval vm_compute in match pipe_rules with Ok l => l | _ => [] end.
+
+Example order_example :
+  nameref_in_order (fun _ => false) order_example_rules [2; 0; 1] order_example_m =
+  nameref_transform pipe_cs (fun _ => false) order_example_rules order_example_m /\
+  match nameref_in_order (fun _ => false) order_example_rules [2; 0; 1] order_example_m with
+  | Ok out =>
+      map (fun r => get_at [JKey "spec"; JKey "volumes"; JIdx 0; JKey "configMap"; JKey "name"] (r_node r)) out
+  | _ => []
+  end = [None; Some (Scalar TNone SPlain "p-cfg"); Some (Scalar TNone SPlain "p-cfg")].
+Proof. vm_compute. split; reflexivity. Qed.
